@@ -14,15 +14,16 @@ import vlib
 
 REQUIRED = [
     "Sqfs.C01.inode_roundtrip", "Sqfs.C01.serialize_establishes_wf", "Sqfs.C01.make_extended_basic_inverse",
-    "Sqfs.C01.selection_minimal_and_safe",
+    "Sqfs.C01.selection_minimal_and_safe", "Sqfs.C01.file_size_start_no_truncation",
     "Sqfs.C01.dir_listing_roundtrip", "Sqfs.C01.dir_index_points_at_headers",
     "Sqfs.C01.meta_stream_roundtrip", "Sqfs.C01.meta_ref_roundtrip",
     "Sqfs.C01.table_roundtrip", "Sqfs.C01.id_table_roundtrip", "Sqfs.C01.frag_table_roundtrip",
     "Sqfs.C01.export_table_roundtrip", "Sqfs.C01.super_roundtrip",
-    "Sqfs.C01.xattr_roundtrip", "Sqfs.C01.xattr_record_index", "Sqfs.C01.xattr_loc_index_lt_count",
+    "Sqfs.C01.xattr_roundtrip", "Sqfs.C01.xattr_refs_ok", "Sqfs.C01.xattr_input_roundtrip",
+    "Sqfs.C01.xattr_record_index", "Sqfs.C01.xattr_loc_index_lt_count",
     "Sqfs.C01.file_content_roundtrip",
     "Sqfs.C01.refuse_unrepresentable", "Sqfs.C01.representable_accepted",
-    "Sqfs.C01.parse_serialize_partial",
+    "Sqfs.C01.parse_serialize_partial", "Sqfs.C01.parse_serialize",
 ]
 
 NONE32 = 0xFFFFFFFF
@@ -219,6 +220,11 @@ class Gen:
                     self.add("mkext %d %s" % (stale, " ".join(d)), op="mkext", desc=d, stale=stale)
                     self.add("mkbasic %s" % " ".join(d), op="mkbasic", desc=d)
                     self.add("setx %d %s" % (r.choice([NONE32, 0, 3, NONE32 - 1]), " ".join(d)), op="setx", desc=d)
+                    # the block processor's two stores: 64-bit values around the 32-bit limit of the basic layout
+                    vals = [0, 5, (1 << 32) - 2, (1 << 32) - 1, 1 << 32, (1 << 32) + 1, (1 << 40) + 5, (1 << 64) - 1]
+                    for opn in ("setsz", "setst"):
+                        for v in (vals if kind == "file" else [r.choice(vals)] if r.random() < 0.15 else []):
+                            self.add("%s %d %s" % (opn, v, " ".join(d)), op=opn, desc=d, v=v)
 
     # -- directory listings
     def sorted_names(self, n, lens):
@@ -416,8 +422,10 @@ class Gen:
                 n = r.choice([0, 1, 2, 4, 9])
                 sets.append([(r.choice(keys), self.xval(pool)) for _ in range(n)])
             emit(sets, what="random")
-        for n in ([1, 511, 512, 513, 1024, 1025] if self.quick else [1, 2, 511, 512, 513, 1023, 1024, 1025, 1536, 2048, 4096]):
-            for vlen in (4, 20):
+        # 512 descriptors per metadata block: 1025 sets need locations[2], 1537 sets locations[3] (the 4th block)
+        for n in ([1, 511, 512, 513, 1025, 1537] if self.quick
+                  else [1, 2, 511, 512, 513, 1023, 1024, 1025, 1536, 1537, 2048, 2049, 4096]):
+            for vlen in ((4, 20) if n <= 513 or not self.quick else (4,)):
                 self.add("xsets 0 %d %d" % (n, vlen), op="xsets", n=n, vlen=vlen)
 
 
@@ -426,7 +434,13 @@ class Gen:
     def tree_name(self, short=True):
         n = self.r.choice([1, 2, 3, 5, 12]) if short else self.r.choice([30, 100, 255, 256])
         alpha = [c for c in range(0x21, 0x100) if c != 0x2f]
-        return bytes(self.r.choice(alpha) for _ in range(n))
+        while True:
+            nm = bytes(self.r.choice(alpha) for _ in range(n))
+            # every entry point canonicalises names (pack file, tar) or takes them from readdir, which skips them:
+            # "." and ".." never reach fstree_add_generic as a component.  (The library would accept such a node, and
+            # `mknode` canonicalises a hard link's *target*: corpus/C01/units-boundaries.ops pins both.)
+            if nm not in (b".", b".."):
+                return nm
 
     def file_spec(self):
         r = self.r
@@ -511,6 +525,30 @@ class Gen:
                     add((base + b"/" if base else b"") + b"e%04d" % k, "p", "-")
             toks = ["%s|%s|%d|%d|%d|%d|%d|%s" % (hx(p), t, perm, u, g, mt, xa, ex) for (p, t, perm, u, g, mt, xa, ex) in specs]
             self.add("tree " + " ".join(toks), op="tree", specs=specs)
+        # the id table at its limit *inside* sqfs_serialize_fstree (both lookups of serialize_tree_node): the writer's
+        # table already holds n0 ids; inodes are written children first, the root last
+        f = "b:96:%d:%d:0:-" % (NONE32, NONE32)
+
+        def idcase(n0, nodes, root, expect_ret, count):
+            specs = [(b"", "d", 0o755, root[0], root[1], 0, NONE32, "-")] if root else []
+            specs += [(p, "f", 0o644, u, g, 0, NONE32, f) for (p, u, g) in nodes]
+            toks = ["%s|%s|%d|%d|%d|%d|%d|%s" % (hx(p), t, perm, u, g, mt, xa, ex) for (p, t, perm, u, g, mt, xa, ex) in specs]
+            self.add("treeids %d %s" % (n0, " ".join(toks)), op="treeids", specs=specs if expect_ret == 0 else None,
+                     expect="ret %d" % expect_ret, idcount=count, n0=n0)
+        # (filling the real table is a linear search per id: ~5 s per case under ASan, so quick runs three of them)
+        idcase(65533, [(b"a", 5, 5)], (5, 6), 0, 65535)         # 5; root: 5 found, 6 is the 65535th: exactly full
+        idcase(65534, [(b"a", 5, 6)], None, 7, None)            # 6 is the 65536th: refused at the **gid** lookup
+        idcase(65534, [(b"a", 5, 5)], (5, 6), 7, None)          # root's gid 6 is the 65536th: gid lookup, last inode
+        if not self.quick:
+            idcase(65532, [(b"a", 5, 6)], None, 0, 65535)       # 5, 6, then the root's 0: exactly 65535 ids
+            idcase(65533, [(b"a", 5, 6)], None, 7, None)        # root's uid 0 is the 65536th: refused at the uid lookup
+            idcase(65535, [(b"a", 1000, 65000 + 1000)], (1001, 1002), 0, 65535)   # full table, every id already in it
+            idcase(65535, [(b"a", 1000, 5)], (1001, 1002), 7, None)
+            n0 = r.choice([65530, 65531, 65532])
+            extra = [(b"n%d" % k, r.choice([5, 6, 7, 1000]), r.choice([5, 6, 7, 2000])) for k in range(3)]
+            distinct = len({x for (_, u, g) in extra for x in (u, g) if not 1000 <= x < 1000 + n0} | {0})
+            if n0 + distinct <= 65535:
+                idcase(n0, extra, None, 0, n0 + distinct)
         # refused trees
         long_name = bytes([0x61]) * 257
         self.add("tree %s|f|420|0|0|0|%d|b:96:%d:%d:0:-" % (hx(long_name), NONE32, NONE32, NONE32), op="tree", specs=None, expect="ret 4")
@@ -558,7 +596,7 @@ def run_real(ctx, exe, lines, timeout):
         err = ""
         try:
             with open(fin) as fi, open(fout, "w") as fo:
-                p = subprocess.run([str(exe)], stdin=fi, stdout=fo, stderr=subprocess.PIPE, text=True, env=env,
+                p = subprocess.run([str(exe)], stdin=fi, stdout=fo, stderr=subprocess.PIPE, text=True, errors="replace", env=env,
                                    timeout=timeout, preexec_fn=_limits)
             rc, err = p.returncode, p.stderr[-20000:]
         except subprocess.TimeoutExpired:
@@ -746,8 +784,33 @@ def spec_failures(meta, ans):
         elif op == "xsets":
             if "same=true" not in ans:
                 bad.append("xattr-set-read-back-differs")
-        elif op == "tree":
+        elif op in ("tree", "treeids"):
             bad.extend(tree_failures(meta, ans))
+            if op == "treeids" and meta.get("idcount") is not None and not bad:
+                ids = [x for x in t if x.startswith("ids=")][0][4:].split(",")
+                want = list(range(1000, 1000 + meta["n0"]))
+                if len(ids) != meta["idcount"] or list(map(int, ids[:meta["n0"]])) != want:
+                    bad.append("id table after the run: %d ids, wanted %d" % (len(ids), meta["idcount"]))
+        elif op in ("setsz", "setst"):
+            d = meta["desc"]
+            if d[0] not in ("file", "xfile"):
+                return [] if ans == "err 15" else ["non-file inode not refused"]
+            if t[0] not in ("file", "xfile") or len(t) != ARITY[t[0]]:
+                return ["not a file inode afterwards"]
+            before, after = inode_view(d, []), inode_view(t, [])
+            slot = 2 if op == "setsz" else 1                 # payload = ("f", start, size, sparse, frag idx, frag off, words)
+            pb, pa = list(before["payload"]), list(after["payload"])
+            if pa[slot] != meta["v"]:
+                bad.append("value stored is not the value read back (truncated?)")
+            if meta["v"] > 0xFFFFFFFF and t[0] != "xfile":
+                bad.append("basic layout with a value beyond 32 bits")
+            if t[0] == "file" and (pa[1] > 0xFFFFFFFF or pa[2] > 0xFFFFFFFF):
+                bad.append("basic layout cannot hold start/size")
+            pb[slot] = pa[slot] = None
+            if pb != pa or [before[k] for k in ("mode", "mtime", "inum", "xattr")] != [after[k] for k in ("mode", "mtime", "inum", "xattr")]:
+                bad.append("another field changed")
+            if d[0] == "xfile" and int(d[9]) >= 1 and after["nlink"] != before["nlink"]:
+                bad.append("link count changed")
         elif op == "export":
             if "expect" in meta:
                 return [] if ans == meta["expect"] else ["inode number 0 not refused"]
@@ -955,6 +1018,10 @@ def nontrivial_key(meta, ans):
         return ("inode", ans.split()[5] if len(ans.split()) > 5 else ans[:12], meta.get("rt"), len(ans) // 64)
     if op in ("mkext", "mkbasic", "setx"):
         return (op, ans.split()[0], meta["desc"][0])
+    if op in ("setsz", "setst"):
+        return (op, ans.split()[0], meta["desc"][0], meta["v"] > 0xFFFFFFFF, meta["v"] < 0xFFFFFFFF)
+    if op == "treeids":
+        return (op, ans.split()[1] if len(ans.split()) > 1 else ans[:10], meta.get("n0"))
     if op == "dirl":
         t = ans.split()
         size = int(t[2].split("=")[1]) if len(t) > 2 and t[2].startswith("size=") else -1
@@ -991,10 +1058,12 @@ def model_lines(ops):
         op = l.split()[0]
         if op == "mkext":
             lines.append("mkextfix" + l[5:]); back.append((i, "fix"))
-        elif op in ("xattr", "xsets"):
-            t = l.split()
+        elif op == "xattr" or (op == "xsets" and (len(l.split()) < 3 or not l.split()[2].isdigit() or int(l.split()[2]) % 512 == 0)):
+            t = l.split()                                  # (the two models differ only at multiples of 512 sets)
             t[1] = "1"
             lines.append(" ".join(t)); back.append((i, "fix"))
+        elif op == "tree" and not meta.get("corpus"):
+            lines.append("treechk" + l[4:]); back.append((i, "chk"))       # hypotheses + conclusion of parse_serialize
     return lines, back
 
 
@@ -1015,31 +1084,46 @@ def run_units(ctx, stats):
         ctx.violation("unit:protocol", "C01 units: answer count differs from op count (real %d/%d, model %d/%d)"
                       % (len(real), len(lines), len(mout), len(mlines)), {"ops": len(lines)}, found_input=False)
         return 0, 0, 1
-    cur, fix = {}, {}
+    cur, fix, chk = {}, {}, {}
     for (i, which), a in zip(back, mout):
-        (cur if which == "cur" else fix)[i] = a
+        (cur if which == "cur" else fix if which == "fix" else chk)[i] = a
     classes, hist, disagreements, defects = set(), {}, 0, {}
+    hyp = {"met": 0, "skipped": 0}
     for i, ((line, meta), ans) in enumerate(zip(ops, real)):
         op = meta.get("op")
         hist[op] = hist.get(op, 0) + 1
         classes.add(nontrivial_key(meta, ans))
         failures = spec_failures(meta, ans)
-        agree = ans == cur[i]
+        expected = cur[i]
+        # the two repairs (D32, D9): `fix` is the model of the repaired code, `cur` of the code before the repair.  A tree
+        # that answers like the repaired model is compared with that model — and the monitor below looks at it like at
+        # every other answer.
+        if op in ("mkext", "xattr", "xsets") and i in fix and ans == fix[i]:
+            expected = fix[i]
+        agree = ans == expected
         replay = {"kind": "unit", "op": line if len(line) < 20000 else line[:20000] + "...", "real": ans[:4000],
-                  "model": cur[i][:4000], "harness": "harness/h_c01u.c", "spec_failures": failures}
+                  "model": expected[:4000], "harness": "harness/h_c01u.c", "spec_failures": failures}
+        # --- the hypotheses of `Sqfs.C01.parse_serialize`, and its conclusion, evaluated by the model for this tree
+        if i in chk and ans.startswith("ret 0 "):
+            c = chk[i]
+            if c == "rep=true order=true norm=same":
+                hyp["met"] += 1
+            else:
+                disagreements += 1
+                ctx.violation("unit:treechk:%s" % vlib.sha(line)[:10],
+                              "C01 unit `tree`: the tree serializes but the model finds a hypothesis of parse_serialize unmet or "
+                              "its conclusion false: %s" % c, dict(replay, treechk=c), found_input=False)
+        elif i in chk:
+            hyp["skipped"] += 1
         # --- the two known shapes of "model of the repaired code ≠ code as it is"
-        if op == "mkext" and i in fix and cur[i] != fix[i]:
-            if ans == fix[i]:
-                continue                                      # repaired tree
+        if op == "mkext" and i in fix and cur[i] != fix[i] and ans != fix[i]:
             if ans == cur[i]:
                 defects[KEY_D32] = defects.get(KEY_D32, 0) + 1
                 ctx.violation(KEY_D32, "sqfs_inode_make_extended on a FIFO/SOCKET inode leaves ipc_ext.xattr_idx stale "
                               "(stores 0xFFFFFFFF into dev_ext.xattr_idx): `%s` -> `%s`, wanted `%s`" % (line, ans, fix[i]),
                               replay)
                 continue
-        if op in ("xattr", "xsets") and i in fix and cur[i] != fix[i]:
-            if ans == fix[i]:
-                continue                                      # repaired tree
+        if op in ("xattr", "xsets") and i in fix and cur[i] != fix[i] and ans != fix[i]:
             if ans.startswith("crash asan") and "oob=0" not in cur[i]:
                 defects[KEY_D9] = defects.get(KEY_D9, 0) + 1
                 ctx.violation(KEY_D9, "xattr writer write_id_table stores locations[count] (heap overflow) when the number "
@@ -1054,10 +1138,10 @@ def run_units(ctx, stats):
                           % (op, "; ".join(failures)[:300], "agrees" if agree else "differs"), replay)
         else:
             ctx.violation(key, "C01 unit `%s`: model and real code differ (read-back itself still holds): real `%s` model `%s`"
-                          % (op, ans[:160], cur[i][:160]), replay, found_input=False)
+                          % (op, ans[:160], expected[:160]), replay, found_input=False)
     stats.update({"unit_ops": len(ops), "unit_corpus_ops": ncorpus, "unit_ops_by_kind": hist,
                   "unit_distinct_classes": len(classes), "unit_disagreements": disagreements,
-                  "unit_known_defects_seen": defects, "unit_wall_s": round(time.time() - t0, 1),
+                  "unit_known_defects_seen": defects, "unit_parse_serialize_hypotheses": hyp, "unit_wall_s": round(time.time() - t0, 1),
                   "unit_rule": "one evaluation = one op line run through the real library and the model; classes = "
                                "(op, outcome kind, size bucket) tuples actually observed",
                   "unit_samples": [l[:160] for l, _ in ops[ncorpus:ncorpus + 5]]})
